@@ -23,8 +23,12 @@ def scenarios(thorough=False):
             # by the limit, States.Timeout, and the exact classification of those findings needs to see it stuck)
             # (the large generated machines kept in corpus/engine.json for C02 / C11 are left out too: several of the open
             # findings combine in them in ways neither the model's skeletons nor the fallback classifier cover)
+            # (definitions the engine cannot interpret are C18's; the witnesses of the fan-out protocol findings are left out
+            # as well: their plans answer the n-th request, and a fan-out re-launched from its held event after a crash
+            # (the open findings C04-F2 / F4: join state is volatile) repeats requests, which shifts which attempt of the
+            # retried fan-out fails — like the gen* machines, a combination neither the model nor the classifiers cover)
             if sc.extra.get("fail_payload") is None and "TimeoutSeconds" not in sc.machine and not sc.name.startswith(("oversize", "gen")) \
-                    and sc.sm_type == "STANDARD":
+                    and sc.sm_type == "STANDARD" and not sc.extra.get("illformed") and not sc.extra.get("finding"):
                 sc.name = "corpus:" + sc.name
                 out.append(sc)
     out.append(S("seq-task-wait", {"StartAt": "T", "States": {"T": T("f1", Next="W"), "W": {"Type": "Wait", "Seconds": 2, "Next": "P"},
